@@ -251,6 +251,15 @@ func init() {
 		states += lc
 		transitions += lc
 		run.Set("lifecycle_cases", lc)
+		// a steady peer is heard whatever its datagrams look like to the sockets:
+		// real gossip.New instances on loopback (real_nodes.go)
+		rn, rfails := realNodeScenarios()
+		for _, f := range rfails {
+			run.Violation("C12", "steady-peer-not-heard:"+f[0], f[1], map[string]any{"engine": "real-nodes", "scenario": f[0]})
+		}
+		states += rn
+		transitions += rn
+		run.Set("real_node_scenarios", rn)
 		// a peer that falls silent is always eventually suspected by the running
 		// node - also when sending to it fails (its host is gone) rather than
 		// being silently dropped. Real gossip.New on loopback sockets.
